@@ -10,6 +10,7 @@ NOT decided: I/O faults of write() itself (disk full, permissions).
 import ast
 
 from ..astutil import calls_in, call_name, where, kw
+from ..dataflow import sources_of
 from ..cfg import build_cfg
 from ..dataflow import node_of_ast
 from ..model import AnalysisError, unparse, walk_no_nested
@@ -132,18 +133,19 @@ def run(prog, rep):
     recv_ok = False
     if good:
         recv = sw[0][1].func.value
-        if isinstance(recv, ast.Name):
-            from ..astutil import local_assignments
-            defs = local_assignments(save.node, recv.id)
-            recv_ok = len(defs) == 1 and isinstance(defs[0], ast.Call) and call_name(defs[0]) == "ODMLWriter"
+        srcs = sources_of(prog, save, recv) if isinstance(recv, ast.Name) else [(save, recv)]
+        recv_ok = bool(srcs) and all(isinstance(v, ast.Call) and call_name(v) == "ODMLWriter" for _, v in srcs)
     rep.check(good and recv_ok, "OWN-4", "fileio.save -> ODMLWriter.write_file", "single file effect through ODMLWriter",
               "fileio.save creates files other than through ODMLWriter(...).write_file", save.where,
               witness="odml.save of an invalid document writes a file")
     raw_callers = []
     for f in prog.all_functions():
         for c in calls_in(f.node):
-            fn = unparse(c.func)
-            if fn.endswith(".write_file") and ("XMLWriter(" in fn or "RDFWriter(" in fn):
+            if not (isinstance(c.func, ast.Attribute) and c.func.attr == "write_file"):
+                continue
+            recv = c.func.value
+            srcs = sources_of(prog, f, recv) if isinstance(recv, ast.Name) else [(f, recv)]
+            if any(isinstance(v, ast.Call) and call_name(v).split(".")[-1] in ("XMLWriter", "RDFWriter") for _, v in srcs):
                 raw_callers.append((f, c))
     allowed = {"tools.odmlparser.ODMLWriter.write_file", "tools.converters.format_converter.FormatConverter._convert_file"}
     for f, c in raw_callers:
